@@ -2,6 +2,7 @@
    accesses, the probe cycle -/
 import NngModel.Model.IdHash
 import NngModel.Spec.Queues
+import NngModel.Generated.C18
 namespace Nng.IdHash
 
 /-- the allocation range and cursor are well formed (what nni_id_map_init establishes for hi ≥ lo) -/
